@@ -27,6 +27,9 @@ func rulesC17(e *Engine, r *Report) {
 			C("(p2 != nil)", "haveInfo"),
 			C("(p3 == nil)", "noErr"),
 			C("("+rel+" != \"\")", "notRoot"),
+			C("("+file+"#1 != global(filepath.SkipDir))", "errNotSkip"),
+			C("(global(filepath.SkipDir) != "+file+"#1)", "errNotSkip"),
+			C("!call(errors.Is)("+file+"#1, global(filepath.SkipDir))", "errNotSkip"),
 		)
 		n := e.Guarded(r, "R17.1", "store.(*Local).handleNode: append to the scan result", fn, e.instrMatch("store(p0.scanFiles = builtin(append)(p0.scanFiles, ["+file+"#0]))"), cls,
 			func(l LabelSet) bool {
@@ -41,6 +44,11 @@ func rulesC17(e *Engine, r *Report) {
 			if e.Canon(rt.Results[0]) == "global(filepath.SkipDir)" {
 				nSkip++
 				r.Check(rw.W.HasAll("isDir", "dirIgnored"), "R17.1", "store.(*Local).handleNode: SkipDir only for an ignored directory "+rw.W.String(), e.InstrPos(rt), "a directory is skipped without matching an ignore rule", 1)
+			}
+			if rv := e.Canon(rt.Results[0]); rv != "nil" && rv != "global(filepath.SkipDir)" && rw.W.HasAll("haveInfo", "noErr") {
+				// an error produced while looking at a file (newLocalFile answers SkipDir for a link to a directory when links are not followed)
+				r.Check(rw.W.Has("errNotSkip"), "R17.1", "store.(*Local).handleNode: a file node never answers SkipDir "+rw.W.String(), e.InstrPos(rt),
+					"an error of the file constructor is handed to the walk without excluding filepath.SkipDir: for a non-directory the walk abandons the rest of the containing directory, so eligible siblings are never scanned ("+rv+")", 1, rv)
 			}
 			if rw.W.HasAll("isDir", "dirIgnored") {
 				r.Check(e.Canon(rt.Results[0]) == "global(filepath.SkipDir)", "R17.1", "store.(*Local).handleNode: an ignored directory is skipped as a whole "+rw.W.String(), e.InstrPos(rt),
